@@ -473,6 +473,10 @@ impl Cfg {
                 debug!("failed to propagate degrees within allotted time");
                 rerun = false;
             }
+            #[cfg(feature = "verif")]
+            if crate::verif_hooks::pass_budget_spent() {
+                rerun = false;
+            }
         }
     }
 
@@ -491,6 +495,10 @@ impl Cfg {
             // Bail out if analysis takes more than 10 seconds.
             if start.elapsed() > MAX_ANALYSIS_DURATION {
                 debug!("failed to propagate values within allotted time");
+                rerun = false;
+            }
+            #[cfg(feature = "verif")]
+            if crate::verif_hooks::pass_budget_spent() {
                 rerun = false;
             }
         }
